@@ -13,7 +13,7 @@ from harness.common import Collector
 ID = "C04"
 
 RULE = ("method bodies built from control shapes (if / if-else, while (+else in Python), for-in, C-style for, do-while, "
-        "break, continue, return, switch/match with 2 cases and optional default, nested function declarations), "
+        "break, continue, return, switch/match with 2 cases and optional default, try / catch / else / finally with an optional raise at the end of the try body, nested function declarations), "
         "enumerated exhaustively up to a node bound (see coverage.enumerated) and sampled by Hypothesis up to 9 nodes / "
         "depth 3, rendered in every frontend that has the constructs; lian runs lang + P1 and for every method every path "
         "of the structural walker (all branch decisions, each loop entered 0, 1 and 2 times) is checked against the CFG: "
@@ -26,13 +26,15 @@ ASSUMPTIONS = [
     "condition, condition_prebody statements run before every test, a for_stmt runs init_body once and update_body after the body and "
     "after continue, do-while runs the body first; switch cases fall through except in Python (match) and Go; case/default rows are labels",
     "only structural feasibility: branch conditions are opaque parameters, so every decision vector is a concrete execution",
-    "exceptional control flow (try/raise) is not generated in this revision",
+    "exceptional control flow: only explicit raise / throw statements raise (as the last statement of a try body); a raise reaches any catch "
+    "clause of the enclosing try or leaves it uncaught; finally bodies run on every way out, before a pending return / break / continue proceeds",
 ]
 
 BATCH = 24
 # open known findings that would mask everything behind them are stepped over by not emitting the construct in
 # generated cases (their dedicated replay files still exercise them on every run)
 STEP_OVERS = {
+    "C04-jump-through-finally": ("*", {"tryjump"}),
     "C04-python-match": ("python", {"sw"}),
     "C04-go-switch-no-fallthrough": ("go", {"sw"}),
 }
@@ -44,9 +46,9 @@ def open_finding_ids():
 
 def active_kinds(lang, col=None):
     kinds = set(gen_ctl.LANG_CONSTRUCTS[lang]) - {"empty"}
-    for fid in open_finding_ids():
+    for fid in sorted(open_finding_ids()):
         so = STEP_OVERS.get(fid)
-        if so and so[0] == lang:
+        if so and so[0] in (lang, "*"):
             kinds -= so[1]
             if col is not None:
                 col.stepovers["%s: %s not generated for %s" % (fid, ",".join(sorted(so[1])), lang)] += 1
@@ -135,7 +137,7 @@ def check_method(lang, prog, row, cfg, find_first, col, case_fn, shape_key):
     for trace, outcome in paths:
         if not trace:
             continue
-        if outcome not in ("fall", "return"):
+        if outcome not in ("fall", "return", "raise"):
             col.error("walker produced a %s outcome at method level for %s" % (outcome, shape_key))
             continue
         ids = [sid for sid, _ in trace]
@@ -170,7 +172,7 @@ def check_method(lang, prog, row, cfg, find_first, col, case_fn, shape_key):
 
 def has_loop_or_exit(block):
     cs = gen_ctl.constructs_of(block)
-    return bool(cs & {"wh", "fi", "fc", "dw", "rt", "br", "co"})
+    return bool(cs & {"wh", "fi", "fc", "dw", "rt", "br", "co", "raise"})
 
 
 def run_batch(lang, blocks, col, label):
